@@ -1,5 +1,6 @@
 import Drive.Util
 import Drive.Timer
+import Drive.Interp
 /-!
 Line-protocol driver for the executable model: one request per line on stdin, one response per
 line on stdout.  `<unit> <op> <hex args…>`.
@@ -8,10 +9,12 @@ open Drive Teakra
 
 structure St where
   timer : Timer := {}
+  core : Core := {}
 
 def stepLine (st : St) (line : String) : St × String :=
   match (line.trimAscii.toString.splitOn " ").filter (· ≠ "") with
   | "timer" :: args => let (t, out) := timerStep st.timer args; ({ st with timer := t }, out)
+  | "interp" :: args => let (c, out) := interpStep st.core args; ({ st with core := c }, out)
   | [] => (st, "")
   | _ => (st, "bad-unit")
 
